@@ -76,12 +76,23 @@ def gen_clone(repo):
     copies_dt = any(s == 'cpy._datatype = self._datatype.copy()' for s in tail)
     built = any(s.startswith('cpy = self.__class__(data_cpy') for s in tail)
     fresh = any(s == 'data_cpy = {}' for s in tail)
+    # the constructor call: the copy is given the level, the placeholder flag and the version of the original
+    kw = {}
+    for st in f.body:
+        if isinstance(st, ast.Assign) and _src(st.targets[0]) == 'cpy' and isinstance(st.value, ast.Call):
+            kw = dict((k.arg, _src(k.value)) for k in st.value.keywords)
+    keeps = dict((n, kw.get(n) == 'self.' + n) for n in ('vlevel', 'virtual', 'version'))
     text = ("(* gfapy/line/common/cloning.py Cloning.clone: how each stored value is copied *)\n"
             "Definition k_clone_mode (r j is_list is_str is_oriented is_fieldarray : bool) : string :=\n  %s.\n\n"
             "(* the copy has its own table of tag datatypes / is built from the copied values in a fresh dictionary *)\n"
             "Definition k_clone_copies_datatypes : bool := %s.\n"
             "Definition k_clone_built_from_copies : bool := %s.\n"
-            % (expr, 'true' if copies_dt else 'false', 'true' if (built and fresh) else 'false'))
+            "(* the copy is constructed with the validation level / placeholder flag / version of the original *)\n"
+            "Definition k_clone_keeps_vlevel : bool := %s.\n"
+            "Definition k_clone_keeps_virtual : bool := %s.\n"
+            "Definition k_clone_keeps_version : bool := %s.\n"
+            % (expr, 'true' if copies_dt else 'false', 'true' if (built and fresh) else 'false',
+               'true' if keeps['vlevel'] else 'false', 'true' if keeps['virtual'] else 'false', 'true' if keeps['version'] else 'false'))
     return text
 
 
@@ -124,3 +135,55 @@ def gen_levels(repo):
         out.append("(* %s %s.%s: comparisons of the validation level, in source order *)\n"
                    "Definition T_VLEVELS_%s : list (string * Z) := [%s].\n" % (rel, cls, func, name, items))
     return '\n'.join(out)
+
+
+# ------------------------------------------------------------------ NumericArray.from_string: the range test of an element
+CMP = {ast.GtE: 'Z.geb', ast.Gt: 'Z.gtb', ast.LtE: 'Z.leb', ast.Lt: 'Z.ltb', ast.Eq: 'Z.eqb'}
+
+
+def _zexpr(node):
+    s = _src(node)
+    if s == 'e':
+        return 'e'
+    if s == 'range[0]':
+        return 'lo'
+    if s == 'range[1]':
+        return 'hi'
+    if isinstance(node, ast.Constant) and isinstance(node.value, int) and not isinstance(node.value, bool):
+        return '(%d)%%Z' % node.value
+    raise Unsupported('operand of the range test not understood: %s' % s, getattr(node, 'lineno', 0))
+
+
+def _bexpr(node):
+    if isinstance(node, ast.BoolOp):
+        op = 'andb' if isinstance(node.op, ast.And) else 'orb'
+        out = _bexpr(node.values[0])
+        for v in node.values[1:]:
+            out = '(%s %s %s)' % (op, out, _bexpr(v))
+        return out
+    if isinstance(node, ast.UnaryOp) and isinstance(node.op, ast.Not):
+        return '(negb %s)' % _bexpr(node.operand)
+    if isinstance(node, ast.Compare) and len(node.ops) == 1 and type(node.ops[0]) in CMP:
+        return '(%s %s %s)' % (CMP[type(node.ops[0])], _zexpr(node.left), _zexpr(node.comparators[0]))
+    raise Unsupported('range test not understood: %s' % _src(node), getattr(node, 'lineno', 0))
+
+
+def gen_narange(repo):
+    """the condition under which from_string(valid=False) accepts an integer element e of a subtype with range (lo, hi):
+    the test `if not valid and not (COND): raise ValueError` inside the element loop"""
+    path = os.path.join(repo, 'gfapy/numeric_array.py')
+    tree = ast.parse(open(path).read())
+    f = _find_method(tree, 'NumericArray', 'from_string')
+    found = []
+    for node in ast.walk(f):
+        if isinstance(node, ast.If) and isinstance(node.test, ast.BoolOp) and isinstance(node.test.op, ast.And) \
+                and len(node.test.values) == 2 and _src(node.test.values[0]) == 'not valid' \
+                and isinstance(node.test.values[1], ast.UnaryOp) and isinstance(node.test.values[1].op, ast.Not) \
+                and 'range' in _src(node.test.values[1]):
+            if not (len(node.body) == 1 and isinstance(node.body[0], ast.Raise) and 'ValueError' in _src(node.body[0])):
+                raise Unsupported('the range test does not raise ValueError', node.lineno)
+            found.append(node.test.values[1].operand)
+    if len(found) != 1:
+        raise Unsupported('expected exactly one test `not valid and not (<range condition>)` in from_string, found %d' % len(found), f.lineno)
+    return ("(* gfapy/numeric_array.py NumericArray.from_string: an integer element e is accepted for the range (lo, hi) *)\n"
+            "Definition k_na_in_range (e lo hi : Z) : bool := %s.\n" % _bexpr(found[0]))
